@@ -18,7 +18,8 @@ CACHE = os.environ.get("VERIF_CACHE", "/verif/.cache")
 
 def quiet_imports():
     os.chdir(REPO)
-    import rzilcompiler.Helper as H
+    with contextlib.redirect_stdout(io.StringIO()):
+        import rzilcompiler.Helper as H
     H.LOG_LEVEL = -1
 
 
